@@ -153,9 +153,15 @@ func countAxioms(terms []*Term) []*Term {
 		// empty range, bounds
 		out = append(out, Implies(Le(hi, lo), Eq(cur, IntLit(0))))
 		out = append(out, And(Ge(cur, IntLit(0)), Implies(Le(lo, hi), Le(cur, Sub(hi, lo)))))
-		// back unfolding (both directions around hi)
-		out = append(out, Implies(Lt(lo, hi), Eq(cur, Add(c(d, lo, Sub(hi, IntLit(1)), ex), one(d.p(Sub(hi, IntLit(1)), ex))))))
-		out = append(out, Implies(Le(lo, hi), Eq(c(d, lo, Add(hi, IntLit(1)), ex), Add(cur, one(d.p(hi, ex))))))
+		// back and forward unfolding around hi, four steps each way (a UTF-8 character has up to four bytes)
+		for j := int64(0); j < 4; j++ {
+			h0 := Sub(hi, IntLit(j))
+			h1 := Sub(hi, IntLit(j+1))
+			out = append(out, Implies(Lt(lo, h0), Eq(c(d, lo, h0, ex), Add(c(d, lo, h1, ex), one(d.p(h1, ex))))))
+			g0 := Add(hi, IntLit(j))
+			g1 := Add(hi, IntLit(j+1))
+			out = append(out, Implies(Le(lo, g0), Eq(c(d, lo, g1, ex), Add(c(d, lo, g0, ex), one(d.p(g0, ex))))))
+		}
 		// front unfolding
 		out = append(out, Implies(Lt(lo, hi), Eq(cur, Add(one(d.p(lo, ex)), c(d, Add(lo, IntLit(1)), hi, ex)))))
 	}
@@ -173,6 +179,13 @@ func countAxioms(terms []*Term) []*Term {
 			}
 			if !same {
 				continue
+			}
+			// monotone in the upper bound (also one step beyond a's bound)
+			if a.args[0].String() == b.args[0].String() {
+				lo, ex := a.args[0], a.args[2:]
+				out = append(out, Implies(Le(a.args[1], b.args[1]), Le(c(a.d, lo, a.args[1], ex), c(a.d, lo, b.args[1], ex))))
+				a1 := Add(a.args[1], IntLit(1))
+				out = append(out, Implies(Le(a1, b.args[1]), Le(c(a.d, lo, a1, ex), c(a.d, lo, b.args[1], ex))))
 			}
 			// cnt(lo, hi) == cnt(lo, m) + cnt(m, hi) with m := b.hi when b.lo == a.lo
 			if a.args[0].String() == b.args[0].String() {
